@@ -127,26 +127,13 @@ Section Go.
   Definition go_dec_step (path : string) (p : packet) (f : field) : dstep :=
     if f_rep f then go_dec_list path f else go_dec_field path p f.
 
-  Fixpoint number {A} (i : nat) (l : list A) : list (nat * A) :=
-    match l with [] => [] | x :: r => (i, x) :: number (S i) r end.
-
   Definition go_ir (path : string) (p : packet) : pkt_ir :=
     let fs := number 0 (p_fields p) in
     mkPkt (length (p_fields p))
           (flat_map (fun '(i, f) => go_enc_step path p i f) fs)
           (map (fun '(i, f) => (i, go_dec_step path p f)) fs).
 
-  (* generateGoFileForPacket: inline packets of a packet are emitted (recursively) with it *)
-  Fixpoint go_packet (path : string) (p : packet) {struct p} : prog :=
-    match p with
-    | mkPacket _ _ _ fs _ =>
-        (fix inl (fs : list field) : prog :=
-           match fs with
-           | [] => []
-           | mkField fname (AObj true _ _ (Some q)) _ _ :: r => go_packet (path_join path fname) q ++ inl r
-           | _ :: r => inl r
-           end) fs ++ [(path, go_ir path p)]
-    end.
-
-  Definition gen_go : prog := flat_map (fun p => go_packet (p_name p) p) (m_packets M).
+  (* generateGoFileForPacket: inline packets of a packet are emitted (recursively) with it;
+     all_packets is that traversal *)
+  Definition gen_go : prog := map (fun '(path, p) => (path, go_ir path p)) (all_packets M).
 End Go.
